@@ -718,6 +718,13 @@ def oracle_c18(res):
             return f"foreign-exception: request {r} ended with {st}"
         if st == "pending":
             return f"hangs: request {r} never completed"
+    for r, st in res.get("consumers", {}).items():
+        rr = int(r)
+        if st["end"] == "pending" and rr in subs and subs[rr][1] < ts:
+            return (f"observation-pending: the application's `async for` over the observation of request {r} is "
+                    f"still waiting after shutdown ({st['items']} notification(s) received)")
+        if st["end"].startswith("raised:") and "Error" not in st["end"].split(":")[1].split(","):
+            return f"foreign-exception: iterating the observation of request {r} raised {st['end']}"
     if info.get("handlers_alive"):
         return f"handlers-alive: server handlers {info['handlers_alive']} not cancelled by shutdown"
     if info.get("second_context") not in (None, "ok"):
